@@ -287,6 +287,34 @@ def r03_7(prog, rep):
         ok_eval = all(corrected(gps) for _q, gps in sites)
         where = sorted({q for q, _ in sites})[0]
         rep.check(ok_eval, "R03.7", where, f.loc, "the required keys are corrected from the evaluated hints (NotRequired / Required written in string annotations)", "the required keys are taken from the runtime's __required_keys__ as they are: under `from __future__ import annotations` (or for a quoted member) the runtime cannot see NotRequired[...], lists the key as required, and a valid value that omits it is rejected -- unmarshal(Movie, {'title': 'Alien'}) raises 'missing required keys: [year]' for `year: NotRequired[int]`", detail="typeddict-required-evaluated")
+    # a parameterised generic TypedDict (`Page[int]`) is an alias object: it forwards no dunder attribute of the class.  Whoever
+    # reads a TypedDict dunder (__required_keys__, __total__, __optional_keys__) reads it from the origin class
+    DUNDERS = ("__required_keys__", "__total__", "__optional_keys__")
+    raw_reads = []
+    n_reads = 0
+    for q, g in prog.functions.items():
+        if not q.startswith(f"{C.INSP}.") or g.cls is not None:
+            continue
+        try:
+            gps = P.paths_of(prog, g)
+        except Exception:
+            continue
+        params = {("param", n) for n in g.params}
+        for pth in gps:
+            for tm in pth.all_terms():
+                for x in T.walk(tm):
+                    subject = None
+                    if T.is_call_to(x, "builtins.getattr") and len(x[2]) >= 2 and x[2][1][0] == "const" and x[2][1][1] in DUNDERS:
+                        subject = x[2][0]
+                    elif x[0] == "attr" and x[2] in DUNDERS:
+                        subject = x[1]
+                    if subject is None:
+                        continue
+                    n_reads += 1
+                    if subject in params:
+                        raw_reads.append(f"{g.name}: {T.show(x)[:50]}")
+    if n_reads:
+        rep.check(not raw_reads, "R03.7", f"{C.INSP}", "", f"{n_reads} read(s) of a TypedDict dunder attribute go through the origin class", f"a TypedDict dunder is read from the annotation as given ({sorted(set(raw_reads))[:2]}): a parameterised generic TypedDict is an alias that forwards no dunder attribute, so Page[int] has no required keys (and is taken for total) -- unmarshal(Page[int], {{}}) returns {{}} where unmarshal(Page, {{}}) raises 'missing required keys'", detail="typeddict-dunder-of-alias")
     rep.check(enforced and raises, "R03.7", fb.qualname, f.loc, "required TypedDict keys are checked before the mapping is built", "the structured routine never consults __required_keys__: for a TypedDict target, dict(**kwargs) accepts any subset of the fields — unmarshal(Movie, {}) == {} although `title` and `year` are required (dataclasses and named tuples reject the same input)", detail="typeddict-required")
 
 
